@@ -357,6 +357,9 @@ Proof.
   apply scol_fin_all. intros u. destruct (String.eqb u y); discriminate.
 Qed.
 
+Lemma some_inj {T} (a b : T) : Some a = Some b -> a = b.
+Proof. congruence. Qed.
+
 Lemma leaf_bin_fin x op y z c A : leaf_bin x op y z c = Some A -> fin_all A.
 Proof.
   intros H.
@@ -366,7 +369,7 @@ Proof.
     [|unfold leaf_bin in H; rewrite Eop, Etr in H; discriminate H].
   destruct (An_leaf.cv_lookup_len op y z tr Eop Etr) as [_ Hfin].
   unfold leaf_bin in H. rewrite Eop, Etr in H. change (negb true) with false in H.
-  cbv iota zeta in H. Show. injection H as <-. Show.
+  cbv iota zeta in H. apply some_inj in H. subst A.
   apply scol_fin_all. intros u. cbv beta. rewrite An_leaf.assoc_sc_index.
   destruct (index_of_str u _) as [i|]; [|discriminate].
   match goal with |- nth i ?vec O <> I => destruct (nth_in_or_default i vec O) as [Hin|E] end;
